@@ -222,8 +222,20 @@ func c09DHCP(c *ev.Collector, rt *rapid.T, m gen.DHCPMsg) {
 	}
 	// Write (= decode)
 	d := new(protocol.DHCP)
-	if pf, pm := safeCall(func() { _, err = d.Write(append([]byte{}, m.Wire...)) }); pf != "" || err != nil {
+	consumed := 0
+	if pf, pm := safeCall(func() { consumed, err = d.Write(append([]byte{}, m.Wire...)) }); pf != "" || err != nil {
 		c.Report(rt, "C09|DHCP|decode-failed", fmt.Sprintf("%s %s %v :: %s", pf, pm, err, hx(m.Wire)), rep)
+		return
+	}
+	// the decoder takes the whole options field (filler behind END included): bytes consumed = bytes given,
+	// and the decoded value reports the size of what a decoder reads
+	if consumed != len(m.Wire) {
+		c.Report(rt, "C09|DHCP|bytes-consumed", fmt.Sprintf("Write reports %d bytes consumed of the %d given", consumed, len(m.Wire)), rep)
+		return
+	}
+	dl := 0
+	if dfr, _ := safeCall(func() { dl = int(d.Len()) }); dfr != "" || dl != m.Read {
+		c.Report(rt, "C09|DHCP|Len-after-decode", fmt.Sprintf("decoded value reports Len()=%d (panic %q), the message up to its END option has %d bytes", dl, dfr, m.Read), rep)
 		return
 	}
 	o := m.Val
